@@ -393,7 +393,16 @@ func genWorld(r *Rng, cfg *genCfg) *World {
 	for i := 0; i < nWl; i++ {
 		ns := Pick(r, nss)
 		name := fmt.Sprintf("w%d", r.Intn(cfg.maxWl+1))
-		if cfg.icName && r.P(12) {
+		if cfg.sameName && r.P(12) && len(usedNames) > 0 {
+			// a name that collides with the pods generated for a workload object: Pod web-1 next to Deployment web
+			var ks []string
+			for k := range usedNames {
+				ks = append(ks, k)
+			}
+			sortStrings(ks)
+			k := Pick(r, ks)
+			ns, name = k[:strings.Index(k, "/")], k[strings.Index(k, "/")+1:]+"-1"
+		} else if cfg.icName && r.P(12) {
 			name = "ingress-controller" // a real workload with the name of the fake ingress-controller pod
 		} else if cfg.icName && r.P(10) {
 			name = "x" + name // a name with another workload's name as a proper suffix
